@@ -53,7 +53,7 @@ theorem help_everywhere : ∀ t ∈ Gen.Cli.tools, ∃ a ∈ t.actions, a.opts =
     `--into` directory when given, of the archive's directory otherwise. -/
 theorem tape_extract_placement_step (extract : Bool) (dir : Str) (s : Tape.RState) (raw : Bytes) :
     (Tape.readStep extract dir s raw).1.writes = s.writes ∨
-    ∃ f c, (Tape.readStep extract dir s raw).1.writes = s.writes ++ [(pathJoin dir f, c)] ∧ f.contains 47 = false := by
+    ∃ f c, (Tape.readStep extract dir s raw).1.writes = s.writes ++ [(pathJoin dir f, c)] ∧ f.contains 47 = false ∧ Tape.openable f = true := by
   unfold Tape.readStep
   cases Tape.blockType raw with
   | invalid => exact Or.inl rfl
@@ -92,12 +92,12 @@ theorem tape_extract_placement_step (extract : Bool) (dir : Str) (s : Tape.RStat
               · simp only [h0, ho, if_true, if_false, Bool.false_eq_true]; exact Or.inl trivial
               · simp only [h0, ho, if_false, Bool.false_eq_true]
                 cases Tape.onEndBlock s.l with
-                | error e => exact Or.inr ⟨_, _, rfl, by simpa using h47⟩
-                | ok r => exact Or.inr ⟨_, _, rfl, by simpa using h47⟩
+                | error e => exact Or.inr ⟨_, _, rfl, by simpa using h47, by simpa using ho⟩
+                | ok r => exact Or.inr ⟨_, _, rfl, by simpa using h47, by simpa using ho⟩
 
 theorem tape_extract_placement_loop (dir : Str) (blocks : List Bytes) : ∀ (s : Tape.RState),
-    (∀ w ∈ s.writes, ∃ f, w.1 = pathJoin dir f ∧ f.contains 47 = false) →
-    ∀ w ∈ (Tape.readLoop true dir s blocks).2.writes, ∃ f, w.1 = pathJoin dir f ∧ f.contains 47 = false := by
+    (∀ w ∈ s.writes, ∃ f, w.1 = pathJoin dir f ∧ f.contains 47 = false ∧ Tape.openable f = true) →
+    ∀ w ∈ (Tape.readLoop true dir s blocks).2.writes, ∃ f, w.1 = pathJoin dir f ∧ f.contains 47 = false ∧ Tape.openable f = true := by
   induction blocks with
   | nil => intro s hs; simpa [Tape.readLoop] using hs
   | cons raw rest ih =>
@@ -105,7 +105,7 @@ theorem tape_extract_placement_loop (dir : Str) (blocks : List Bytes) : ∀ (s :
     simp only [Tape.readLoop]
     cases hstep : Tape.readStep true dir s raw with
     | mk s' e =>
-      have hs' : ∀ w ∈ s'.writes, ∃ f, w.1 = pathJoin dir f ∧ f.contains 47 = false := by
+      have hs' : ∀ w ∈ s'.writes, ∃ f, w.1 = pathJoin dir f ∧ f.contains 47 = false ∧ Tape.openable f = true := by
         intro w hw
         have hst := tape_extract_placement_step true dir s raw
         rw [hstep] at hst
@@ -122,7 +122,7 @@ theorem tape_extract_placement_loop (dir : Str) (blocks : List Bytes) : ∀ (s :
 
 theorem tape_extract_placement (verbose : Bool) (archive : Str) (into : Option Str) (tape : Bytes) :
     ∀ w ∈ (Tape.extract verbose archive into tape).writes,
-      ∃ f, w.1 = pathJoin (Tape.targetDirOf archive into) f ∧ f.contains 47 = false := by
+      ∃ f, w.1 = pathJoin (Tape.targetDirOf archive into) f ∧ f.contains 47 = false ∧ Tape.openable f = true := by
   unfold Tape.extract
   exact tape_extract_placement_loop _ _ _ (by simp)
 
